@@ -433,3 +433,83 @@ func VerifC10WebConcurrent() {
 		vAssert(vStrEq(wb, warnB), "sched:C10.webconc.warnings: the warnings shown for a request differ when another request is served concurrently")
 	}
 }
+
+func init() { vRegister("VerifC10OptionHistory", VerifC10OptionHistory) }
+
+// VerifC10OptionHistory: a report depends on the option values in effect, not
+// on the values an option had earlier in the session: the session
+// [opt=v1; top; opt=v2; top] ends with the same report as the fresh session
+// [opt=v2; top], for options that change names, paths, filters and counts.
+func VerifC10OptionHistory() {
+	opts := [][3]string{
+		{"source_path", "/x/proj", "/y/src"},
+		{"source_path", "/y/src", ""},
+		{"trim_path", "/home/u", "/home"},
+		{"focus", "main", "work"},
+		{"hide", "leaf", "work"},
+		{"nodecount", "1", "2"},
+		{"granularity", "lines", "files"},
+	}
+	o := opts[vChoice("option", vBound("c10.hopts", len(opts)))]
+	mkProfile := func() *profile.Profile {
+		p := vC10Profile()
+		p.Function[0].Filename = "/home/u/proj/m.go"
+		p.Function[1].Filename = "/home/u/src/w.go"
+		p.Function[2].Filename = "/home/u/proj/l.go"
+		return p
+	}
+	session := func(script []string) ([]vItem, bool) {
+		ui := &vScriptUI{lines: script}
+		var last []vItem
+		ok := false
+		saved := generateReportWrapper
+		generateReportWrapper = func(cp *profile.Profile, cmd []string, cfg config, o *plugin.Options) error {
+			_, rpt, err := generateRawReport(cp, cmd, cfg, o)
+			if err != nil {
+				ok = false
+				return err
+			}
+			items, _ := report.TextItems(rpt)
+			last = nil
+			for _, it := range items {
+				last = append(last, vItem{it.Name, it.Flat, it.Cum})
+			}
+			ok = true
+			return nil
+		}
+		before := currentConfig()
+		interactive(mkProfile(), &plugin.Options{UI: ui, Writer: vNoWriter{}})
+		generateReportWrapper = saved
+		setCurrentConfig(before)
+		return last, ok
+	}
+	base := "granularity=filefunctions"
+	if o[0] == "granularity" {
+		base = "nodecount=10"
+	}
+	hist, ok1 := session([]string{base, o[0] + "=" + o[1], "top", o[0] + "=" + o[2], "top"})
+	fresh, ok2 := session([]string{base, o[0] + "=" + o[2], "top"})
+	vReach("C10.opthistory:done")
+	vAssert(ok1 == ok2, "C10.opthistory.outcome: a command's outcome depends on the values an option had earlier in the session")
+	if ok1 && ok2 {
+		vAssert(vSameItems(hist, fresh), "C10.opthistory.result: a report depends on the value an option had earlier in the session, not only on the value in effect")
+	}
+	// source_path: what the entries are called under the value in effect is known
+	// (a file below a directory named like the last element of source_path is shown relative to it)
+	if o[0] == "source_path" && ok1 {
+		wantMain, wantWork := "main /home/u/proj/m.go", "work /home/u/src/w.go"
+		if o[2] == "/y/src" {
+			wantWork = "work w.go"
+		}
+		okNames := true
+		for _, it := range hist {
+			if strings.HasPrefix(it.name, "main ") && it.name != wantMain {
+				okNames = false
+			}
+			if strings.HasPrefix(it.name, "work ") && it.name != wantWork {
+				okNames = false
+			}
+		}
+		vAssert(okNames, "C10.opthistory.names: file names are trimmed according to an earlier source_path, not the one in effect")
+	}
+}
